@@ -11,11 +11,14 @@ TemplatesV ==
   { TBuy(a, q, <<10, 0>>, <<2, 0>>) : a \in {"", "Spouse", "(R)"}, q \in {q1, q3} } \cup
   { TBuyFx("", q3, <<7, 0>>, <<1, 0>>, "USD", usd, "", One),
     TBuyFx("Spouse", q25, <<4, 0>>, <<3, 0>>, "USD", usd, "EUR", eur),
-    TBuyFx("", q1, <<9, 0>>, <<1, 0>>, "USD", usd, "CAD", One) } \cup
+    TBuyFx("", q1, <<9, 0>>, <<1, 0>>, "USD", usd, "CAD", One),
+    \* commission in the trade's own currency, converted at its own (different) rate
+    TBuyFx("", q3, <<8, 0>>, <<2, 0>>, "USD", usd, "USD", <<125, 2>>) } \cup
   { TSell(a, q1, <<12, 0>>, <<1, 0>>) : a \in {"", "Spouse", "(R)"} } \cup
   { TSell("", q3, <<5, 0>>, Z), TSell("Spouse", q25, <<20, 0>>, Z),
     TSellFx("", q1, <<9, 0>>, <<2, 0>>, "USD", usd, "EUR", eur),
-    TSellFx("Spouse", q1, <<2, 0>>, <<1, 0>>, "USD", usd, "", One) } \cup
+    TSellFx("Spouse", q1, <<2, 0>>, <<1, 0>>, "USD", usd, "", One),
+    TSellFx("", q1, <<11, 0>>, <<1, 0>>, "USD", usd, "USD", <<14, 1>>) } \cup
   { TRoc("", <<1, 0>>), TRoc("Spouse", <<25, 1>>), TSfla("", q1, <<3, 0>>), TSfla("Spouse", q3, <<15, 1>>) } \cup
   { TSplit("*", "2-for-1", <<2, 0>>, One, FALSE), TSplit("*", "1-for-2", One, <<2, 0>>, TRUE),
     TSplit("Spouse", "3-for-2", <<3, 0>>, <<2, 0>>, FALSE), TSplit("", "1.0-for-4.0", One, <<4, 0>>, FALSE),
